@@ -27,7 +27,7 @@ Why ==
   ELSE IF Found = {} THEN "the annotated route is missing from the document"
   ELSE LET w == OpWhy(ExpectedOp(OpRec), Ev.ops[CHOOSE i \in Found : TRUE]) IN
        IF w # "ok" THEN "the operation's " \o w \o " are not as annotated"
-       ELSE IF Ev.merge /\ ~Ev.mergedKept THEN "the input spec's own paths/definitions are lost in the merge"
+       ELSE IF Ev.merge # "none" /\ ~Ev.mergedKept THEN "the input spec's own paths/definitions are lost in the merge"
        ELSE IF \E k \in ModelKinds : ModelWhy(k) # "ok" THEN ModelWhy(CHOOSE k \in ModelKinds : ModelWhy(k) # "ok")
        ELSE "ok"
 TInit == l = 1 /\ nrej = 0 /\ lines = <<>> /\ pos = 1 /\ mode = "header" /\ title = <<>> /\ desc = <<>> /\ tagsSeen = 0
